@@ -100,6 +100,15 @@ def groupings(N):
     return out
 
 
+def symmetric_early_not_later(A, groups):
+    """boundary structure: exactly symmetric in one listed group (of >= 2 modes) but not in a later one"""
+    if not sizes_match(A.shape, groups):
+        return False
+    inv = [invariant(A, [g]) for g in groups]
+    return any(inv[i] and len(groups[i]) >= 2 and any(not inv[j] for j in range(i + 1, len(groups)))
+               for i in range(len(groups)))
+
+
 def is_single_full_group(N, groups):
     return len(groups) == 1 and sorted(groups[0]) == list(range(N))
 
@@ -114,11 +123,16 @@ def sym_case(draw, tier, allow_mismatch=False, min_order=1):
     """dict(shape, data (flat F order), groups, grps_form, data_class, vkind)."""
     maxsize = 3 if tier == "quick" else 4
     maxcells = 100 if tier == "quick" else 260
-    N = draw(st.sampled_from([n for n in [1, 2, 2, 3, 3, 3, 4, 4, 4] if n >= min_order]))
-    structure = draw(st.sampled_from(["full", "proper", "proper", "several", "singletons"]))
+    N = draw(st.sampled_from([n for n in [1, 2, 2, 3, 3, 3, 4, 4, 4, 4] if n >= min_order]))
+    structure = draw(st.sampled_from(["full", "proper", "proper", "several", "singletons", "pairs", "pairs"]))
+    if structure == "pairs" and N < 4:
+        structure = "proper"
     order = list(draw(st.permutations(range(N))))
     if structure == "full" or N == 1:
         groups = [order]
+    elif structure == "pairs":
+        # two groups of two modes each: the smallest case in which a later group is not trivially symmetric
+        groups = [order[:2], order[2:4]]
     elif structure == "proper":
         g = draw(st.integers(2, N - 1)) if N >= 3 else 1
         groups = [order[:g]]
@@ -159,13 +173,23 @@ def sym_case(draw, tier, allow_mismatch=False, min_order=1):
     n = ref.prod(shape)
     data = draw(st.lists(gen.values(vkind), min_size=n, max_size=n))
     A = gen.arr_F(shape, data)
-    dclass = draw(st.sampled_from(["random", "random", "symmetric", "symmetric", "one-group-only", "one-entry-off"]))
+    if len(groups) >= 2 and len(groups[0]) >= 2:
+        dclass = draw(st.sampled_from(["random", "symmetric", "one-group-only", "one-group-only", "one-entry-off",
+                                       "all-but-last-group", "all-but-last-group", "last-group-only"]))
+    else:
+        dclass = draw(st.sampled_from(["random", "random", "symmetric", "symmetric", "one-group-only", "one-entry-off"]))
     if mismatch:
         dclass = "random"
+    if dclass in ("all-but-last-group", "last-group-only") and len(groups) < 2:
+        dclass = "one-group-only"
     if dclass == "symmetric":
         A = make_symmetric(A, groups)
     elif dclass == "one-group-only":
         A = make_symmetric(A, groups[:1])
+    elif dclass == "all-but-last-group":
+        A = make_symmetric(A, groups[:-1])
+    elif dclass == "last-group-only":
+        A = make_symmetric(A, groups[-1:])
     elif dclass == "one-entry-off":
         A = make_symmetric(A, groups)
         pos = draw(st.integers(0, n - 1))
@@ -176,18 +200,42 @@ def sym_case(draw, tier, allow_mismatch=False, min_order=1):
         forms.append("1d")
         if groups[0] == list(range(N)):
             forms.append("none")
-    return dict(shape=shape, data=[float(x) for x in A.flatten(order="F")], groups=groups,
-                grps_form=draw(st.sampled_from(forms)), data_class=dclass, vkind=vkind, structure=structure,
-                size_mismatch=mismatch)
+    out = dict(shape=shape, data=[float(x) for x in A.flatten(order="F")], groups=groups,
+               grps_form=draw(st.sampled_from(forms)), data_class=dclass, vkind=vkind, structure=structure,
+               size_mismatch=mismatch)
+    # round 2: provenance of the operand, dtypes, spelling of the group array, data magnitude
+    out["prov"] = draw(st.sampled_from(["ctor", "ctor", "grown"]))
+    if vkind == "int" and draw(st.integers(0, 2)) == 0:
+        out["dt"] = "int64"
+    out["gdtype"] = draw(st.sampled_from(["int64", "int64", "int32", "uint8"]))
+    if vkind == "float" and draw(st.integers(0, 2)) == 0:
+        sc = draw(st.sampled_from([1e6, 1e-6]))
+        out["scale"] = sc
+        out["data"] = [x * sc for x in out["data"]]
+    if not mismatch and any(len(g) >= 2 for g in groups) and draw(st.integers(0, 3)) == 0:
+        # the operand is itself the result of an earlier symmetrize over some of the groups
+        which = draw(st.sampled_from(["first", "all-but-last", "last", "same"]))
+        out["pre"] = dict(which=which, version=draw(st.sampled_from([None, None, 1])))
+    return out
 
 
-def grps_arg(case):
-    form = case["grps_form"]
+def pre_groups(case):
+    g, which = case["groups"], case["pre"]["which"]
+    sel = g[:1] if which == "first" else (g[:-1] if which == "all-but-last" else (g[-1:] if which == "last" else g))
+    return [list(x) for x in sel] or [list(x) for x in g[:1]]
+
+
+def grps_array(groups, form, gdtype="int64"):
+    dt = {"int64": np.int64, "int32": np.int32, "uint8": np.uint8}[gdtype or "int64"]
     if form == "none":
         return None
     if form == "1d":
-        return np.array(case["groups"][0], dtype=int)
-    return np.array(case["groups"], dtype=int)
+        return np.array(groups[0], dtype=dt)
+    return np.array(groups, dtype=dt)
+
+
+def grps_arg(case):
+    return grps_array(case["groups"], case["grps_form"], case.get("gdtype"))
 
 
 def sym_labels(case):
@@ -204,4 +252,8 @@ def sym_labels(case):
         out.append("group-unsorted")
     if len(set(case["shape"])) > 1:
         out.append("non-cubical")
+    if case.get("gdtype") not in (None, "int64"):
+        out.append("grps-dtype-" + case["gdtype"])
+    if case.get("scale"):
+        out.append(f"scale-{case['scale']:g}")
     return out
